@@ -120,3 +120,39 @@ def iterfold(h):
             ctx.oblige('iterfold: only FieldSelectionError or the reducer\'s own exception escapes',
                        z3.BoolVal((res.exc.kind == 'FieldSelectionError') or (res.exc.kind == 'UserError' and inloop is not None)), res.exc.origin or '')
     h.explore(body)
+
+
+@vc('C09.iterrowreduce', functions=[RD + 'iterrowreduce', 'petl.util.base.rowgroupby'], props=['C09', 'C03'],
+    assumptions=['T2 groupby at group level; single key field; the reducer is an uninterpreted callback of (key, rows)',
+                 'stateless-body rule over the groups'])
+def iterrowreduce(h):
+    def body(ctx):
+        red = UCall('reducer')
+
+        def delta(ls, x, dout):
+            e = z3.Select(ls.base.arr, ls.k.t)
+            a = getattr(red, 'last_args', [None, None])
+            ok = z3.BoolVal(False)
+            if len(a) == 2 and isinstance(a[1], Seq):
+                grows = view_seq(SCell(bi.grp_rows(e)))
+                res = bi.ucall_terms('reducer', [as_v(a[0]), as_v(a[1])])[0]
+                ok = z3.And(as_v(a[0]) == bi.grp_inner(e), _t(row_eq(a[1], grows)),
+                            dout.len == 1, _t(row_eq(out_row(dout, 0), SCell(res))))
+            ctx.oblige('iterrowreduce: one output row per group: tuple(reducer(key, exactly the rows of that group, in order))', ok)
+        it = h.interp(ctx, loops={(RD + 'iterrowreduce', 0): LoopSpec(delta=delta, label='groups')})
+        S = sym_table(ctx, 'S', nmin=1)
+        rows_are_sequences(ctx, S)
+        rectangular(ctx, S)
+        install(it, ctx, S)
+        header = sym_seq(ctx, 'header', 'tuple')
+        res = run_generator(it, closure_of(it, RD + 'iterrowreduce'), [S, 'k', red, header])
+        if res.exc is not None:
+            inloop = getattr(ctx, 'in_iteration', None)
+            ctx.oblige('iterrowreduce: only FieldSelectionError or the reducer\'s own exception (at its group) escapes',
+                       z3.BoolVal((res.exc.kind == 'FieldSelectionError') or (res.exc.kind == 'UserError' and inloop is not None)), res.exc.origin or '')
+            return
+        if getattr(ctx, 'after_loop', None):
+            pre = ctx.pre_loop_out
+            ctx.oblige('iterrowreduce: the given header first, once; nothing after the last group',
+                       z3.And(pre.len == 1, _t(row_eq(out_row(pre, 0), header)), res.out.len == 0))
+    h.explore(body)
